@@ -135,6 +135,58 @@ def steps_of(fn: ast.FunctionDef, flags: dict = None) -> list:
     return out
 
 
+def option_view_bypasses() -> list:
+    """Every request handler / validator of the simulator (a function or lambda whose first parameter besides `self` is named
+    `request`) that turns its options into a PLAIN sequence before reading them: `list(request)`, `tuple(request)`,
+    `sorted/reversed(request)`, `copy(request)` / `deepcopy(request)` / `request.copy()`, `[*request]`, a slice `request[a:b]`,
+    a concatenation `request + …`.  Such a copy is an ordinary list: an out-of-range read of it raises a plain IndexError, which
+    `RequestManager.__call__` (rightly) does not catch.  RequestManager itself (core.py) slices the request by design and is
+    excluded; a slice handed straight to another request manager (`x._request_manager(request[2:], context)`) re-enters the
+    request layer and is not a bypass."""
+    from harness.lib.core import SRC
+    hits = []
+    for f in sorted((SRC / "simulator").rglob("*.py")):
+        rel = str(f.relative_to(SRC))
+        if rel == "simulator/core.py":
+            continue
+        tree = ast.parse(f.read_text())
+        for fn in ast.walk(tree):
+            if not isinstance(fn, (ast.FunctionDef, ast.Lambda)):
+                continue
+            params = [a.arg for a in fn.args.args if a.arg != "self"]
+            if not params or params[0] != "request":
+                continue
+            name = getattr(fn, "name", "<lambda>")
+            body = fn.body if isinstance(fn.body, list) else [fn.body]
+            parent = {}
+            for b in body:
+                for x in ast.walk(b):
+                    for ch in ast.iter_child_nodes(x):
+                        parent[id(ch)] = x
+            for n in [x for b in body for x in ast.walk(b)]:
+                is_req = lambda e: isinstance(e, ast.Name) and e.id == "request"   # noqa: E731
+                bad = None
+                if isinstance(n, ast.Call) and isinstance(n.func, ast.Name) and n.func.id in ("list", "tuple", "sorted", "reversed", "copy", "deepcopy") \
+                        and n.args and is_req(n.args[0]):
+                    bad = f"{n.func.id}(request)"
+                elif isinstance(n, ast.Call) and isinstance(n.func, ast.Attribute) and n.func.attr in ("copy", "deepcopy") \
+                        and (is_req(n.func.value) or (n.args and is_req(n.args[0]))):
+                    bad = "copy of request"
+                elif isinstance(n, ast.Subscript) and is_req(n.value) and isinstance(n.slice, ast.Slice):
+                    bad = "request[a:b]"
+                elif isinstance(n, ast.Starred) and is_req(n.value):
+                    bad = "*request"
+                elif isinstance(n, ast.BinOp) and isinstance(n.op, ast.Add) and (is_req(n.left) or is_req(n.right)):
+                    bad = "request + …"
+                par = parent.get(id(n))
+                if bad and isinstance(par, ast.Call) and any(n is x for x in par.args) \
+                        and ast.unparse(par.func).endswith(("_request_manager", "apply_request")):
+                    bad = None   # the rest of the request is FORWARDED to a request manager, which wraps it again at its own leaf
+                if bad:
+                    hits.append(f"{rel}:{n.lineno} {name}: {bad}")
+    return hits
+
+
 def emit() -> str:
     tree = parse("simulator/core.py")
     rm = class_def(tree, "RequestManager")
@@ -163,5 +215,7 @@ def checkValidTotalOnUnhashable : Bool := {b(fcv.get("guards_unhashable") and he
 /-- is a leaf handler handed the options as `_RequestOptions` (a list whose out-of-range read raises `RequestOptionsError`, and
 nothing else overridden), with exactly that exception answered `failure` by `__call__`? -/
 def leafAnswersMissingOptions : Bool := {b("invokeLeaf_optionsError_failure" in call and "invoke" not in call and _options_view_ok(tree))}
+/-- handlers / validators that copy or slice their options into a plain sequence before reading them (the view is bypassed) -/
+def optionViewBypasses : List String := [{", ".join(chr(34) + h.replace(chr(92), "/").replace(chr(34), "'") + chr(34) for h in option_view_bypasses())}]
 end Primaite.Gen.RequestCore
 """
